@@ -548,6 +548,8 @@ class Exec:
             return ord(m.group(1))
         if txt.startswith('b"') or txt.startswith('"'):
             return {'$bytes': txt}
+        if txt.startswith('ZeroSized'):
+            return {'$zst': txt}
         mv = re.match(r'^([\w:<>, ()\[\];&\']+?)::(\w+)\((.*)\)$', s.strip_generics(txt))
         if mv:
             en = mv.group(1).split('::')[-1]
